@@ -203,11 +203,20 @@ func (i *interpreter) mapRange(m *omap) iter {
 		return it
 	}
 	ps.iterEvents++
-	if ps.iterEvents > ps.oracle.MapOrderEvents {
-		// beyond the forking budget: reverse order (still a legal order)
+	switch ps.oracle.MapOrderMode {
+	case "reverse": // one global strategy: every iteration reversed
 		for k := range it.order {
 			it.order[k] = n - 1 - k
 		}
+		return it
+	case "rotate":
+		for k := range it.order {
+			it.order[k] = (k + 1) % n
+		}
+		return it
+	}
+	if ps.iterEvents <= ps.oracle.MapOrderFrom || ps.iterEvents > ps.oracle.MapOrderFrom+ps.oracle.MapOrderEvents {
+		// outside the forking window: insertion order
 		return it
 	}
 	switch {
